@@ -434,6 +434,68 @@ func datetimeGrid(thorough bool) *core.Family {
 	}
 }
 
+// every year of two full 400-year cycles on both sides of year 0 (and around the
+// magnitudes at which the year representation changes), month ends and Feb 28/29/30:
+// the leap rule is a function of the year modulo 400 and of its sign handling, so a
+// wrong rule for, say, negative century years is only visible on those years.
+func datetimeLeapYears(thorough bool) *core.Family {
+	var years []int64
+	span := int64(820)
+	if thorough {
+		span = 2420
+	}
+	for y := -span; y <= span; y++ {
+		years = append(years, y)
+	}
+	for _, base := range []int64{9600, 10000, 99600, 100000, 99999600, 292270000, 292278800} {
+		for _, off := range []int64{0, 1, 4, 16, 96, 100, 116, 200, 300, 304, 399, 400} {
+			years = append(years, base+off, -(base + off))
+		}
+	}
+	days := []int{1, 28, 29, 30, 31, 32}
+	forms := []string{"", "T00:00:00Z", "T23:59:59.999+0000"}
+	per := 12 * len(days) * len(forms)
+	ystr := func(y int64) string {
+		switch {
+		case y >= 0 && y <= 9999:
+			return fmt.Sprintf("%04d", y)
+		case y < 0:
+			return fmt.Sprintf("-%09d", -y)
+		}
+		return fmt.Sprintf("+%09d", y)
+	}
+	return &core.Family{
+		Name: "datetime-leap-rule-years",
+		Desc: fmt.Sprintf("%d years (every year in [-%d, %d]: two full 400-year cycles each side of 0; plus cycle positions around 10^4, 10^5, 10^8 and the range limits, both signs) x 12 months x days {01,28,29,30,31,32} x {date only, midnight Z, end of day +0000}: accepted exactly when the reference calendar has that day, with the exact value; printed form of every accepted value parses back", len(years), span, span),
+		N:    int64(len(years) * per),
+		Run: func(t *core.T, i int64) {
+			y := years[int(i)/per]
+			x := int(i) % per
+			f := forms[x%len(forms)]
+			x /= len(forms)
+			d := days[x%len(days)]
+			mo := x/len(days) + 1
+			lit := fmt.Sprintf("%s-%02d-%02d%s", ystr(y), mo, d, f)
+			want, ok := ParseDatetime(lit)
+			if ok {
+				t.Nontrivial()
+			}
+			cmpParse(t, "datetime", lit, ParseDatetime, implDatetime)
+			if ok && want.I >= firstDayEnd {
+				// the printed form of that value must be a valid literal of the same value
+				p := types.NewDatetimeFromMillis(want.I).String()
+				back, err := types.ParseDatetime(p)
+				if err != nil {
+					t.Fail("datetime-roundtrip-error", fmt.Sprintf("%d ms -> %q", want.I, p), fmt.Sprint(want.I), err.Error())
+				} else if back.Milliseconds() != want.I {
+					t.Fail("datetime-roundtrip-value", fmt.Sprintf("%d ms -> %q", want.I, p), fmt.Sprint(want.I), fmt.Sprint(back.Milliseconds()))
+				}
+			}
+			t.Sample(lit)
+		},
+	}
+}
+
 func datetimeRender(thorough bool) *core.Family {
 	years := []string{"-000000001", "0000", "0001", "1969", "1970", "1972", "2000", "2023", "2024", "9999", "+000010000", "+292278994", "-292275055", "+999999999", "-999999999", "+000002024"}
 	days := []int{0, 1, 28, 29, 30, 31, 32}
@@ -802,7 +864,7 @@ func Check() *core.Check {
 		Families: func(tier string) []*core.Family {
 			th := tier == "thorough"
 			fams := []*core.Family{longFamily(), decimalSmall(), decimalBoundary(), decimalNeighbourhood(), newDecimalFamily(), floatFamily(),
-				datetimeGrid(true), datetimeRender(true), datetimeNeighbourhood(), durationValues(), durationSubsets(), durationNeighbourhood(), ipFamily(),
+				datetimeGrid(true), datetimeLeapYears(th), datetimeRender(true), datetimeNeighbourhood(), durationValues(), durationSubsets(), durationNeighbourhood(), ipFamily(),
 				entityUIDScalars(0, 0x10FFFF, "entityuid-all-scalars")}
 			_ = th
 			return append(fams, ed2Family())
